@@ -1,9 +1,11 @@
 package main
 
 import (
+	"encoding/hex"
 	"encoding/json"
 	"os"
 	"strings"
+	"unicode/utf8"
 
 	"github.com/dlclark/regexp2/v2/vsim"
 )
@@ -44,10 +46,59 @@ type ReSpec struct {
 
 // InputSpec describes a text as Pre + Unit×Rep + Suf (so that long inputs stay short in a run file and shrink well).
 type InputSpec struct {
-	Pre  string `json:"pre,omitempty"`
-	Unit string `json:"unit,omitempty"`
-	Rep  int    `json:"rep,omitempty"`
-	Suf  string `json:"suf,omitempty"`
+	Pre  string
+	Unit string
+	Rep  int
+	Suf  string
+}
+
+type inputSpecJSON struct {
+	Pre  Str `json:"pre,omitempty"`
+	Unit Str `json:"unit,omitempty"`
+	Rep  int `json:"rep,omitempty"`
+	Suf  Str `json:"suf,omitempty"`
+}
+
+func (i InputSpec) MarshalJSON() ([]byte, error) {
+	return json.Marshal(inputSpecJSON{Str(i.Pre), Str(i.Unit), i.Rep, Str(i.Suf)})
+}
+
+func (i *InputSpec) UnmarshalJSON(b []byte) error {
+	var j inputSpecJSON
+	if err := json.Unmarshal(b, &j); err != nil {
+		return err
+	}
+	*i = InputSpec{string(j.Pre), string(j.Unit), j.Rep, string(j.Suf)}
+	return nil
+}
+
+// Str is a string that survives JSON exactly: inputs may contain invalid UTF-8, which
+// encoding/json would silently replace by U+FFFD and make a replay differ from the run.
+type Str string
+
+func (s Str) MarshalJSON() ([]byte, error) {
+	if utf8.ValidString(string(s)) {
+		return json.Marshal(string(s))
+	}
+	return json.Marshal(map[string]string{"hex": hex.EncodeToString([]byte(s))})
+}
+
+func (s *Str) UnmarshalJSON(b []byte) error {
+	if len(b) > 0 && b[0] == '{' {
+		var m map[string]string
+		if err := json.Unmarshal(b, &m); err != nil {
+			return err
+		}
+		raw, err := hex.DecodeString(m["hex"])
+		*s = Str(raw)
+		return err
+	}
+	var t string
+	if err := json.Unmarshal(b, &t); err != nil {
+		return err
+	}
+	*s = Str(t)
+	return nil
 }
 
 func (i InputSpec) Text() string {
